@@ -205,14 +205,21 @@ PROPS['C18'] = {
 # limit orders is the only case the transaction model leaves to the orders component (driver: INFO unmodelled, state re-synchronised)
 TX_MODEL_NOTE = 'Theorems are about the Lean transaction model (MinterModel/Tx*.lean, all 37 types); the driver compares code, tags and every touched dump key with the node on every generated transaction; swaps / commissions through a pool that carries limit orders are outside the transaction model (orders component)'
 PROPS['C02'] = {
-    'level': 'proof', 'registered': False,
-    'modules': ['MinterProofs.Props.C02'],
+    'level': 'proof', 'registered': False,   # level as set at registration; the claim text states what is partial
+    'modules': ['MinterProofs.Props.C02', 'MinterProofs.Props.C02More'],
     'theorems': ['Minter.C02_partial_1_13_17_28_29', 'Minter.C02_partial_send', 'Minter.C02_partial_multisend', 'Minter.C02_partial_edit_owner',
-                 'Minter.C02_partial_mint', 'Minter.C02_partial_burn', 'Minter.C02_prologue_reject', 'Minter.amountsOk_sound'],
+                 'Minter.C02_partial_mint', 'Minter.C02_partial_burn', 'Minter.C02_prologue_reject', 'Minter.amountsOk_sound',
+                 # c02 builder (Props/C02More.lean): all commission routes, failure fee, 34 of 37 types, BeginBlock
+                 'Minter.planSafe_preserves', 'Minter.primSafe_preserves', 'Minter.fee_preserves', 'Minter.fee_base', 'Minter.fee_bancor', 'Minter.fee_pool',
+                 'Minter.calcCommission_sound', 'Minter.C02_failure_fee', 'Minter.C02_settings', 'Minter.C02_deliver_preserves_32_types',
+                 'Minter.C02_add_liquidity', 'Minter.C02_remove_liquidity', 'Minter.C02_begin_preserves', 'Minter.C02_begin_preserves_no_evidence',
+                 'Minter.c02Oracle_sound', 'Minter.c02State2_wf'],
     'campaigns': [camp('ledger', 16, 200), camp('orders', 8, 100), camp('staking', 8, 100)],
     'mismatch_counts': True,
-    'assumptions': [TX_MODEL_NOTE, 'the node\'s own export at every commit (re-read from disk) is the abstraction function for the amountsOk monitor'],
-    'claim_draft': "Partial. Lean theorems: AmountsOk (no negative balance, reserve, volume, stake, pending update, waitlist entry, frozen fund, pool reserve or order volume; volume <= max supply; reserves of an existing pool > 0 - the Prop form of the executable monitor, amountsOk_sound) is preserved by every ACCEPTED Send (1), Multisend (13), EditCoinOwner (17), MintToken (28) and BurnToken (29) whose commission is paid in the base coin and whose decoded amounts are non-negative, and by every delivery rejected in the prologue (C02_partial_1_13_17_28_29 and its five per-type forms, C02_prologue_reject); for all states and transactions of those types. Everything else - the other 32 types, commissions paid through bancor or a pool, the failure-fee path, BeginBlock/EndBlock - is NOT covered by a theorem: there the property is bound only by the monitor amountsOk (the same Lean definition) evaluated on the node's export at every commit of every campaign (VIOL C02 negative-or-overflow), and by the model/node correspondence of every transaction. Tie: campaigns ledger, orders, staking.",
+    'assumptions': [TX_MODEL_NOTE, 'the node\'s own export at every commit (re-read from disk) is the abstraction function for the amountsOk monitor',
+                    'hypotheses of the C02More theorems, all explicit in the statements: OracleSound (bancor oracle answers inside their envelope; C12), 0 <= minReserve / minOrderVolume, TxNonneg (decoded amounts >= 0: RLP), StateWf = candidate ids identify candidates, burnable coins have no reserve, price table >= 0 (PricesNonneg); type 34: floor(sqrt(v0*v1)) <= max supply; type 21: LP volume + minted <= max supply, pools sorted; type 22: sender\'s LP balance < LP volume, pools sorted, coin ids identify coins; BeginBlock with evidence: byzPhaseFits (every slash <= the volume of its coin)',
+                    'AmountsOk uses the sum semantics of balances (the Boolean monitor is entry-wise; equivalent when balance keys are unique)'],
+    'claim_draft': "Partial. Lean theorems about the transaction model and the BeginBlock model (MinterProofs/Props/C02.lean, C02More.lean), for all states, transactions and oracle answers meeting the stated hypotheses: AmountsOk - no negative balance, reserve, volume, stake, pending update, waitlist entry, frozen fund, pool reserve or order volume; volume <= max supply; reserves of an existing pool > 0 (the Prop form of the executable monitor, amountsOk_sound) - is preserved by checked application of every plan whose primitives write in-range values (planSafe_preserves, primSafe_preserves: the core lemma, with decidable guards); by the commission payment on each route - base coin, bancor reserve (calcCommission_sound from OracleSound), pool without orders (fee_preserves, fee_base, fee_bancor, fee_pool); by EVERY delivery with a non-zero code of all 37 types - prologue rejection, price rejection, handler rejection paying the failure fee, capped or not, by any route (C02_failure_fee, C02_prologue_reject); by every ACCEPTED delivery of the 32 types 1-18, 20, 26-38 with the commission by any route (C02_deliver_preserves_32_types, C02_settings; the earlier base-coin-only forms C02_partial_* remain), of AddLiquidity (21) and RemoveLiquidity (22), also when the commission goes through the pool concerned (C02_add_liquidity, C02_remove_liquidity); and by BeginBlock - unconditionally without evidence, under byzPhaseFits with evidence (C02_begin_preserves_no_evidence, C02_begin_preserves). Coverage table (type x commission route: base / bancor / pool without orders): 32 types accepted: yes/yes/yes; 21, 22 accepted: yes/yes/yes; rejection and failure fee, all 37 types: yes/yes/yes; BeginBlock: yes; accepted SellSwapPool (23), BuySwapPool (24), SellAllSwapPool (25): NO (the per-hop lemma exists, the route induction does not); EndBlock: NO (C19 covers payouts >= 0; C01's block-level theorems cover value, not signs); pools with limit orders: outside the transaction model (C13 has the reserve positivity of order-crossing trades). Where no theorem applies the property is bound by the monitor amountsOk (the same Lean definition) evaluated on the node's export at every commit of every campaign (VIOL C02 negative-or-overflow) and by the model/node correspondence of every transaction. Tie: campaigns ledger, orders, staking. Guards the proofs needed that the handlers do not check (none reachable as far as known, each follows from another invariant): LP supply is never compared with max supply; BurnToken of a bancor-paid gas coin relies on 'burnable coins have no reserve'; RemoveLiquidity keeps reserves positive only through the 1000 locked LP units; the byzantine slash is covered only by conservation.",
 }
 PROPS['C06'] = {
     'level': 'proof', 'registered': False,
